@@ -90,6 +90,8 @@ pub struct Ctx {
     pub inconclusive: Vec<String>,
     /// shared-memory record of the case being executed (crash isolation, see main.rs)
     inflight: Option<Inflight>,
+    /// name of the sub-check being executed
+    pub current_check: String,
 }
 
 pub fn hash_of<K: Hash>(k: &K) -> u64 {
@@ -135,6 +137,7 @@ impl Ctx {
             frozen: false,
             inconclusive: Vec::new(),
             inflight: Inflight::from_env(),
+            current_check: String::new(),
         }
     }
 
@@ -218,6 +221,16 @@ impl Ctx {
         }
     }
 
+    /// A violation after which the process cannot sensibly continue (leaked spinning threads, a hung
+    /// teardown): record it, write the evidence and leave with the violation exit code at once.
+    pub fn fatal_violation<C: Serialize>(&mut self, what: String, case: &C) -> ! {
+        self.frozen = false;
+        let check = self.current_check.clone();
+        self.violation(&check, what, case);
+        let rc = self.finish();
+        std::process::exit(rc.max(1));
+    }
+
     pub fn note_inconclusive(&mut self, what: String) {
         eprintln!("INCONCLUSIVE: {}", what);
         self.inconclusive.push(what);
@@ -257,6 +270,7 @@ impl Ctx {
     }
 
     fn wants(&mut self, name: &str) -> Option<Option<Value>> {
+        self.current_check = name.to_string();
         match &self.replay {
             None => Some(None),
             Some((n, v)) if n == name => {
@@ -482,7 +496,7 @@ impl Ctx {
     }
 
     /// Write the evidence file and return the process exit code.
-    pub fn finish(mut self) -> i32 {
+    pub fn finish(&mut self) -> i32 {
         if let Some((name, _)) = &self.replay {
             if !self.replay_ran {
                 self.inconclusive
